@@ -301,6 +301,174 @@ def skiplist_stream(rng, n_ops, max_members):
                 break
     return ops[:n_ops]
 
+SLZ_ENABLED = True      # the model side of the slz ops (Driver) must exist before these streams run
+
+
+def skiplist_zset_stream(rng, n_ops, max_members):
+    """Op lines (`slz ...`) for one real SortedSet driven through its exported methods; its skiplist
+    is dumped after every mutating call. A Python-side copy only steers the generation."""
+    pool = [b"m%03d" % i for i in range(max_members * 2)] + [b"", b"a", b"aa", b"ab", b"aaa", b"b", b"m", b"m0"]
+    cur = []            # sorted [(score, member)]
+    where = {}          # member -> score
+    ops = ["slz new"]
+
+    def sc():
+        return rng.choice(SL_SCORES)
+
+    def line(*toks):
+        ops.append("slz " + " ".join(str(t) for t in toks))
+
+    def absent():
+        for _ in range(8):
+            m = rng.choice(pool)
+            if m not in where:
+                return m
+        for m in pool:
+            if m not in where:
+                return m
+        return None
+
+    def present():
+        return rng.choice(cur)[1]
+
+    def drop(lo, hi):
+        for _, m in cur[lo:hi]:
+            del where[m]
+        del cur[lo:hi]
+
+    def forget(m):
+        if m in where:
+            i = bisect.bisect_left(cur, (where[m], m))
+            drop(i, i + 1)
+
+    def do_zadd(existing):
+        if existing and cur:
+            m = present()
+            old = where[m]
+            r = rng.random()
+            if r < 0.15:
+                s = old                                  # same score: nothing changes
+            elif r < 0.30 and old == 0:
+                s = -old                                 # the other zero: equal, nothing changes
+            else:
+                s = sc()                                 # remove + insert
+            if s != old:
+                forget(m)
+                where[m] = s
+                bisect.insort(cur, (s, m))
+        else:
+            m = absent()
+            if m is None:
+                return do_zrem()
+            s = sc()
+            where[m] = s
+            bisect.insort(cur, (s, m))
+        line("ZAdd", hx(m), fbits(s))
+
+    def do_zrem():
+        ms = []
+        for _ in range(rng.choice([1, 1, 2, 3])):
+            if cur and rng.random() < 0.75:
+                ms.append(present())
+            else:
+                ms.append(absent() or b"zz")
+        if len(ms) > 1 and rng.random() < 0.15:
+            ms[-1] = ms[0]                               # the same member twice
+        for m in ms:
+            forget(m)
+        line("ZRem", *[hx(m) for m in ms])
+
+    def do_zrank():
+        m = present() if cur and rng.random() < 0.7 else (absent() or b"zz")
+        line("ZRank", hx(m))
+
+    def span(a, b, mode):
+        i = 0
+        while i < len(cur) and (cur[i][0] <= a if mode & 1 else cur[i][0] < a):
+            i += 1
+        j = i
+        while j < len(cur) and (cur[j][0] < b if mode & 2 else cur[j][0] <= b):
+            j += 1
+        return i, j
+
+    def score_bounds():
+        r = rng.random()
+        if r < 0.45:
+            a = b = rng.choice(SL_SORTED)
+        elif r < 0.75:
+            i = rng.randrange(len(SL_SORTED) - 1)
+            a, b = SL_SORTED[i], SL_SORTED[i + 1]
+        elif r < 0.80:
+            a, b = NINF, PINF
+        else:
+            a, b = sc(), sc()
+        if a == 0 and rng.random() < 0.5:
+            a = -0.0
+        if b == 0 and rng.random() < 0.5:
+            b = -0.0
+        return a, b, rng.choice([0, 0, 0, 1, 2, 3])
+
+    def do_byscore(small):
+        a, b, mode = score_bounds()
+        if small:
+            # while the set grows: of a few candidates the one that removes least (but something, if possible)
+            cands = [(a, b, mode)] + [score_bounds() for _ in range(5)]
+            def cost(c):
+                i, j = span(*c)
+                return (j - i == 0, j - i)
+            a, b, mode = min(cands, key=cost)
+        i, j = span(a, b, mode)
+        drop(i, j)
+        line("ZRemRangeByScore", fbits(a), fbits(b), mode)
+
+    def do_byrank():
+        n = len(cur)
+        k = rng.choice([1, 2, 3])
+        start, stop = rng.choice([
+            (0, k - 1), (-k, -1), (0, 1), (-2, -1), (1, 3), (rng.randint(0, n), rng.randint(-1, n)),
+            (n, n + 2), (n - 1, n + 5), (-n - 3, 0), (2, 1), (-1, -2), (rng.randint(0, max(0, n - 1)),) * 2,
+        ])
+        a, b = start, stop
+        if a < 0:
+            a = max(0, n + a)
+        if b < 0:
+            b = n + b
+        if b >= n:
+            b = n - 1
+        if not (a > b or a >= n):
+            drop(a, b + 1)
+        line("ZRemRangeByRank", start, stop)
+
+    growing = True
+    target = max_members
+    while len(ops) < n_ops:
+        n = len(cur)
+        if growing and n >= max_members * 9 // 10:
+            growing = False
+        if not growing and rng.random() < 0.01:
+            target = rng.randint(0, max_members)
+        if not growing and n < max_members // 4 and rng.random() < 0.02:
+            growing = True                               # whole score classes go at once: regrow from time to time
+        room = n < max_members
+        # share of ZAdd on new members: high while growing, low above the drifting target
+        p_new = 0.0 if not room else (0.9 if growing else (0.5 if n < target else 0.15))
+        x = rng.random() * 100
+        if growing and room and x >= 55 and rng.random() < 0.45:
+            x = 0                                        # growing: more ZAdd than in the steady mix
+        if x < 55:
+            do_zadd(existing=rng.random() >= p_new)
+        elif x < 70:
+            do_zrem()
+        elif x < 80:
+            do_zrank()
+        elif x < 88:
+            do_byscore(small=growing and rng.random() < 0.85)
+        elif x < 96:
+            do_byrank()
+        else:
+            line("dump")
+    return ops[:n_ops]
+
 
 def run(ctx, proofs_ok):
     quick = ctx.tier == "quick"
@@ -327,6 +495,14 @@ def run(ctx, proofs_ok):
             break
     if ctx.violations:
         return
+    if SLZ_ENABLED:
+        sizes = [150, 20] if quick else [150, 20, 400, 5, 60, 150]
+        for i, mm in enumerate(sizes):
+            ops = skiplist_zset_stream(ctx.rng, 900 if quick else 4000, mm)
+            if vlib.correspond_stream(ctx, h, ops, f"skiplist-zset-{i}", "pointer skiplist under the real SortedSet methods (ZAdd/ZRem/ZRemRangeBy…): whole-structure comparison against the pointer-level sorted-set model"):
+                break
+        if ctx.violations:
+            return
     vlib.correspond_stream(ctx, h, bounds_table(), "bounds", "every by-score command x inclusive / exclusive marks on either bound x bounds exactly on members' scores (network protocol)")
     if ctx.violations:
         return
